@@ -189,7 +189,9 @@ fn clear_child<T>(node: T) -> Result<(), Box<dyn Error>>
 where
     T: xml_dom::Node + xml_dom::NodeMut,
 {
-    for child in node.child_nodes().iter() {
+    // In the merged-text view one child stands for a run of text, CDATA and reference nodes
+    // and removing it takes out only the first of them: repeat until nothing is left.
+    while let Some(child) = node.first_child() {
         node.remove_child(&child)?;
     }
 
